@@ -10,8 +10,12 @@ res = json.load(open(os.path.join(VERIF, sub, 'RESULTS.json')))
 names = sorted(n for n in os.listdir(os.path.join(VERIF, sub)) if os.path.isdir(os.path.join(VERIF, sub, n)))
 rows = {}
 tot = [0, 0, 0, 0]
+retired = []
 for n in names:
     p, letter = n.split('_')
+    if json.load(open(os.path.join(VERIF, sub, n, 'meta.json'))).get('retired'):
+        retired.append(n)
+        continue
     r = res.get(n)
     row = rows.setdefault(p, {'n': 0, 'input': [], 'noinput': [], 'missed': [], 'other': []})
     row['n'] += 1
@@ -38,3 +42,4 @@ for p in sorted(rows):
     tot[0] += r['n']; tot[1] += len(r['input']); tot[2] += len(r['noinput']); tot[3] += len(r['missed']) + len(r['other'])
 print()
 print('total %d: %d with input, %d without, %d missed/other' % tuple(tot))
+print('retired (neutralised by a later fix):', ' '.join(retired) or '-')
